@@ -194,6 +194,36 @@ def self_reference(ctx):
                 except Exception as e:  # noqa: BLE001
                     ctx.violation("self-reference", f"self-referential-structure-raises:{type(e).__name__}",
                                   {"text": text, "compiled": compiled, "ptr": ptr, "error": lib.exc_sig(e)})
+            # back references that are not a direct pointer field: arrays of pointers, pointer to pointer, pointer
+            # inside a nested member.  Every pointer must target the very class the name resolves to.
+            shapes = [
+                ("ptr-array", "struct node { uint8 v; node *next[2]; };",
+                 lambda c: c.node.fields["next"].type.type.type),
+                ("ptr-ptr", "struct node { uint8 v; node **pp; };", lambda c: c.node.fields["pp"].type.type.type),
+                ("nested", "struct node { uint8 v; struct { node *l; node *r; } links; };",
+                 lambda c: c.node.fields["links"].type.fields["l"].type.type),
+            ]
+            for sname, stext, target in shapes:
+                ctx.evaluation(("selfref-shape", sname, compiled, ptr))
+                ctx.cell("self-reference:" + sname)
+                try:
+                    cs = lib.load(stext, "<", False, compiled, ptr)
+                    if target(cs) is not cs.node:
+                        ctx.violation("self-reference", "back-reference-targets-another-class-than-the-name-resolves-to",
+                                      {"text": stext, "compiled": compiled, "ptr": ptr, "shape": sname})
+                        continue
+                    if sname == "ptr-array":
+                        # node0 at 0 -> next[0] = node1, next[1] = 0
+                        sz = 1 + 2 * pw
+                        data = (b"\x01" + sz.to_bytes(pw, "little") + (0).to_bytes(pw, "little")
+                                + b"\x02" + (0).to_bytes(pw, "little") * 2)
+                        n = cs.node(io.BytesIO(data))
+                        if int(n.next[0].dereference().v) != 2 or len(cs.node) != sz:
+                            ctx.violation("self-reference", "walk-through-pointer-array-fails",
+                                          {"text": stext, "compiled": compiled, "ptr": ptr})
+                except Exception as e:  # noqa: BLE001
+                    ctx.violation("self-reference", f"self-referential-shape-raises:{type(e).__name__}",
+                                  {"text": stext, "compiled": compiled, "ptr": ptr, "error": lib.exc_sig(e)})
             # forward reference with arrays and a later-defined twin: same layout as without self reference
             text2 = "struct T { uint8 n; T *self; T *arr[2]; uint16 t; };\nstruct P { uint8 n; uint8 *self; uint8 *arr[2]; uint16 t; };"
             try:
